@@ -402,7 +402,7 @@ def run(ctx):
         server_instances=["MaxAddrs%d MaxLen%d RPM%d DDRPM%d MaxParts%d" % i for i in si],
         limiter_replay_transitions_in_graphs=lim_edges, limiter_replay_distinct_executed=a["distinct"], limiter_replay_steps=a["steps"],
         server_replay_transitions_in_graphs=srv_edges, server_replay_distinct_executed=b["distinct"], server_replay_steps=b["steps"],
-        interleave_instances=["slots %s RPM%d PerPeer%d DDRPM%d Cap%d" % (",".join(i[0]),) + i[1:] for i in ii],
+        interleave_instances=["slots %s RPM%d PerPeer%d DDRPM%d Cap%d" % ((",".join(i[0]),) + i[1:]) for i in ii],
         interleave_replay_transitions_in_graphs=int_edges, interleave_replay_distinct_executed=ir["distinct"], interleave_replay_steps=ir["steps"],
         pattern_sequences=p["replayed"], pattern_steps=p["steps"], concurrent_schedules=c["replayed"], concurrent_steps=c["steps"],
         server_observed=b.get("extra") or {}, concurrent_observed=cx, limiter_closed_window_max=(a.get("extra") or {}).get("closed_window_max"),
